@@ -27,14 +27,17 @@ type World struct {
 	sents  map[string]*Sent
 	byAddr map[string]string // address -> name ("n0" for addresses nobody listens on)
 
-	mu       sync.Mutex // scenario state: views, triggers, slots
-	events   []map[string]any
-	closed   bool
-	lastAct  time.Time     // last client-side activity other than user traffic
-	slots    map[int64]int // goroutine inside _switchTarget -> slot
-	slotOver bool          // more concurrent _switchTarget calls than the trace specification has slots
-	armed    *trigger
-	recvNode map[int][]string // call id -> nodes that received one of its commands
+	mu        sync.Mutex // scenario state: views, triggers, slots
+	events    []map[string]any
+	closed    bool
+	lastAct   time.Time     // last client-side activity other than user traffic
+	slots     map[int64]int // goroutine inside _switchTarget -> slot
+	slotOver  bool          // more concurrent _switchTarget calls than the trace specification has slots
+	armed     *trigger
+	recvNode  map[int][]string // call id -> nodes that received one of its commands
+	recvIdx   map[int][]int    // call id -> index (inside the call) of each of those commands
+	fault     *faultPlan       // lifetime.go: what the data nodes do to the first transmission of one call
+	sentDelay atomic.Int64     // nanoseconds the sentinels take to answer SENTINEL SENTINELS (lifetime.go)
 }
 
 const maxSlots = 16
@@ -152,7 +155,7 @@ func (w *World) sentinelAddrs() []string {
 
 // ev appends one record; all records carry the same fields (TLC rejects access to a missing field).
 func (w *World) ev(kind string, kv ...any) {
-	m := map[string]any{"ev": kind, "slot": 0, "k": "", "a": "", "ans": "", "id": 0, "flags": []bool{}, "list": []string{}, "s": "", "ch": ""}
+	m := map[string]any{"ev": kind, "slot": 0, "k": "", "a": "", "ans": "", "id": 0, "flags": []bool{}, "list": []string{}, "s": "", "ch": "", "set": ""}
 	for i := 0; i+1 < len(kv); i += 2 {
 		m[kv[i].(string)] = kv[i+1]
 	}
@@ -268,13 +271,19 @@ func (w *World) wireNode(n *Node) {
 			if id, ok := tagOf(e.Argv); ok {
 				w.mu.Lock()
 				w.recvNode[id] = append(w.recvNode[id], n.name)
+				if w.recvIdx != nil {
+					w.recvIdx[id] = append(w.recvIdx[id], tagIndex(e.Argv))
+				}
 				w.evLocked(map[string]any{"ev": "Recv", "slot": e.Conn, "k": "", "a": n.name, "ans": n.srv.Role(), "id": id,
-					"flags": []bool{}, "list": []string{}, "s": "", "ch": strings.ToUpper(e.Argv[0])})
+					"flags": []bool{}, "list": []string{}, "s": "", "ch": strings.ToUpper(e.Argv[0]), "set": ""})
 				w.mu.Unlock()
 			}
 		}
 	})
 	n.srv.SetIntercept(func(c *fakeredis.Conn, argv []string) (fakeredis.Value, fakeredis.Action) {
+		if act, ok := w.faultIntercept(c, argv); ok {
+			return fakeredis.Value{}, act
+		}
 		if d := n.slow.Load(); d > 0 && strings.EqualFold(argv[0], "HELLO") {
 			// a slow connection setup: the client is still dialing this wire while other things happen
 			go func() {
@@ -434,6 +443,16 @@ func (w *World) wireSentinel(s *Sent) {
 		if sub == last {
 			w.fire("answer", s.name)
 		}
+		if d := w.sentDelay.Load(); d > 0 && sub == "SENTINELS" {
+			go func() {
+				t0 := time.Now()
+				for time.Since(t0) < time.Duration(w.sentDelay.Load()) {
+					time.Sleep(2 * time.Millisecond)
+				}
+				c.Unpark(reply)
+			}()
+			return fakeredis.Value{}, fakeredis.Park
+		}
 		return reply, fakeredis.Reply
 	})
 }
@@ -465,26 +484,36 @@ func (w *World) setFail(sname, fail string) {
 	w.mu.Unlock()
 }
 
-// publish sends a sentinel event the way Redis Sentinel words it.
-func (w *World) publish(sname, kind, node string) {
+// publish sends a sentinel event the way Redis Sentinel words it.  set is the master-set name the event is about
+// ("" = the client's): one sentinel group monitors several master sets and publishes the events of all of them on the
+// same channels.
+func (w *World) publish(sname, kind, node, set string) {
+	if set == "" {
+		set = masterSet
+	}
+	if kind == "othermaster" { // an event about another master set must be ignored
+		kind, set = "switch", "othermaster"
+	}
 	s := w.sents[sname]
 	ip, port := hostPort(w.addrOf(node))
 	w.mu.Lock()
 	mip, mport := hostPort(w.addrOf(s.master))
 	w.mu.Unlock()
-	inst := fmt.Sprintf("slave %s:%s %s %s @ %s %s %s", ip, port, ip, port, masterSet, mip, mport)
+	inst := fmt.Sprintf("slave %s:%s %s %s @ %s %s %s", ip, port, ip, port, set, mip, mport)
 	// What the sentinel announces is logged before it is published: fakeredis hands a push frame to the connection's
 	// writer before it delivers the SPush event of a command that is still executing, so the client could act on the
 	// message before the event reached the log.
+	// (with the name of the master set it is about: SentinelTrace.tla decides whether it is a report about the
+	// client's master)
 	switch kind {
 	case "switch", "rebootm":
-		w.ev("Push", "s", sname, "ch", kind, "a", node)
+		w.ev("Push", "s", sname, "ch", kind, "a", node, "set", set)
 	}
 	switch kind {
 	case "switch":
-		s.srv.Do("PUBLISH", "+switch-master", fmt.Sprintf("%s %s %s %s %s", masterSet, mip, mport, ip, port))
+		s.srv.Do("PUBLISH", "+switch-master", fmt.Sprintf("%s %s %s %s %s", set, mip, mport, ip, port))
 	case "rebootm":
-		s.srv.Do("PUBLISH", "+reboot", fmt.Sprintf("master %s %s %s", masterSet, ip, port))
+		s.srv.Do("PUBLISH", "+reboot", fmt.Sprintf("master %s %s %s", set, ip, port))
 	case "slave":
 		s.srv.Do("PUBLISH", "+slave", inst)
 	case "sdown":
@@ -494,9 +523,7 @@ func (w *World) publish(sname, kind, node string) {
 	case "reboots":
 		s.srv.Do("PUBLISH", "+reboot", inst)
 	case "sentinel":
-		s.srv.Do("PUBLISH", "+sentinel", fmt.Sprintf("sentinel %s %s %s @ %s %s %s", strings.Repeat("c", 40), ip, "26379", masterSet, mip, mport))
-	case "othermaster": // an event about another master set must be ignored
-		s.srv.Do("PUBLISH", "+switch-master", fmt.Sprintf("%s %s %s %s %s", "othermaster", mip, mport, ip, port))
+		s.srv.Do("PUBLISH", "+sentinel", fmt.Sprintf("sentinel %s %s %s @ %s %s %s", strings.Repeat("c", 40), ip, "26379", set, mip, mport))
 	}
 }
 
@@ -547,7 +574,7 @@ func (w *World) hook(point, addr string, isMaster int) {
 		return
 	}
 	rec := func(ev string, slot int, kv ...any) {
-		m := map[string]any{"ev": ev, "slot": slot, "k": "", "a": "", "ans": "", "id": 0, "flags": []bool{}, "list": []string{}, "s": "", "ch": ""}
+		m := map[string]any{"ev": ev, "slot": slot, "k": "", "a": "", "ans": "", "id": 0, "flags": []bool{}, "list": []string{}, "s": "", "ch": "", "set": ""}
 		for i := 0; i+1 < len(kv); i += 2 {
 			m[kv[i].(string)] = kv[i+1]
 		}
